@@ -318,6 +318,31 @@ def peval_prec(m, v):
     return p[1] if p[0] == "lit" else None
 
 
+def rule_parse_assert(ctx):
+    """Parser::parse asserts that the parsed pairs span the input.  That assertion is discharged by the `_eoi` entry rules only if the text
+    handed to pest is the very text the assertion compares with."""
+    fx = ctx.facts
+    b = fx.fn("<T as parsing::Parser>::parse")
+
+    def root(e):
+        e = strip(e)
+        while e.get("k") in ("MethodCall", "Field", "Ref", "Unary", "AddrOf") and (e.get("recv") or e.get("e")):
+            e = strip(e.get("recv") or e.get("e"))
+        r = e.get("res", {}) if e.get("k") == "Path" else {}
+        return (r.get("name"), r.get("id")) if r.get("r") == "local" else None
+    parses = [c for c in hq.calls(b["body"], "Parser::parse") if len(c.get("args", [])) == 2]
+    asserts = [n for n in walk(b["body"]) if n.get("mac") == "assert_eq" and n.get("k") == "Match" and strip(n["scrut"]).get("k") == "Tup"]
+    ok = len(parses) == 1 and len(asserts) == 1
+    why = "one pest parse call and one assert_eq expected (found %d / %d)" % (len(parses), len(asserts))
+    if ok:
+        text = root(parses[0]["args"][1])
+        ops = [root(e) for e in strip(asserts[0]["scrut"])["es"]]
+        params = {p_.get("name") for p_ in b["params"]}
+        ok = text is not None and text in ops and text[0] in params
+        why = "pest parses `%s`; the assertion compares %s; `%s` is the unmodified parameter: %s" % (text and text[0], [o and o[0] for o in ops], text and text[0], bool(text and text[0] in params))
+    ctx.add("PANIC-EOI", "parse:assert-same-text", ok, ctx.site(b), why)
+
+
 def rule_eoi_gcov(ctx):
     fx = ctx.facts
     n_parsers = 0
@@ -461,4 +486,4 @@ def printers_numeral(ctx):
             ctx.obls.append(o)
 
 
-RULES = [rule_sites, rule_structural_discharges, rule_eoi_gcov, rule_flow_err, rule_tab_valid, rule_known_overflows]
+RULES = [rule_sites, rule_structural_discharges, rule_eoi_gcov, rule_flow_err, rule_tab_valid, rule_known_overflows, rule_parse_assert]
